@@ -8,6 +8,7 @@
 //	rt     lossless round trip (library writer → library reader) under random write/read chunking
 //	out    interop: library stream decoded by the reference decoder of the format
 //	in     interop: reference-encoded stream decoded by the library reader
+//	ovl    overlapping writers / readers (all opened before use) after each disturbance
 //	hist   history independence of pooled readers/writers (after normal and after failed streams)
 //	conc   one codec value used from many goroutines
 package main
@@ -26,6 +27,7 @@ import (
 	"strconv"
 	"strings"
 	"sync"
+	"time"
 
 	xerial "github.com/eapache/go-xerial-snappy"
 	refsnappy "github.com/golang/snappy"
@@ -37,6 +39,7 @@ import (
 	"github.com/segmentio/kafka-go/compress/lz4"
 	"github.com/segmentio/kafka-go/compress/snappy"
 	"github.com/segmentio/kafka-go/compress/zstd"
+	"github.com/segmentio/kafka-go/protocol"
 
 	"kvharness/internal/gen"
 )
@@ -356,7 +359,108 @@ func disturb(r *rand.Rand, c compress.Codec, good []byte, kind int) {
 		w = c.NewWriter(io.Discard)
 		w.Write(payload(r, 2, 100))
 		w.Close()
+	case 5: // Close called twice (writer and reader), as `defer x.Close()` + explicit Close does
+		w := c.NewWriter(io.Discard)
+		w.Write(payload(r, 2, 3000))
+		w.Close()
+		w.Close()
+		rd := c.NewReader(bytes.NewReader(good))
+		io.Copy(io.Discard, rd)
+		rd.Close()
+		rd.Close()
+	case 6: // the library's own v1 record-set encoder (closes its compressor twice) and v2 encoder / decoders
+		for _, version := range []int8{1, 2} {
+			rs := protocol.RecordSet{Version: version, Attributes: protocol.Attributes(c.Code()),
+				Records: protocol.NewRecordReader(protocol.Record{Time: time.Unix(1600000000, 0), Value: protocol.NewBytes(payload(r, 2, 2000))})}
+			var buf bytes.Buffer
+			rs.WriteTo(&buf)
+			var back protocol.RecordSet
+			back.ReadFrom(bufio.NewReader(bytes.NewReader(buf.Bytes())))
+			if back.Records != nil {
+				for {
+					rec, err := back.Records.ReadRecord()
+					if err != nil {
+						break
+					}
+					if rec.Value != nil {
+						rec.Value.Close()
+					}
+				}
+			}
+		}
 	}
+}
+
+// overlapping use: all writers are opened before any is written to, written to in turns, then closed; then all
+// readers are opened before any is read, and read in turns.  Objects handed out by the pools must be distinct.
+func overlapping(r *rand.Rand, c compress.Codec, name string, ps [][]byte) string {
+	n := len(ps)
+	bufs := make([]*bytes.Buffer, n)
+	ws := make([]io.WriteCloser, n)
+	for i := range ps {
+		bufs[i] = &bytes.Buffer{}
+		ws[i] = c.NewWriter(bufs[i])
+	}
+	rest := make([][]byte, n)
+	copy(rest, ps)
+	for busy := true; busy; {
+		busy = false
+		for i := range rest {
+			if len(rest[i]) == 0 {
+				continue
+			}
+			k := 1 + r.Intn(9000)
+			if k > len(rest[i]) {
+				k = len(rest[i])
+			}
+			if _, err := ws[i].Write(rest[i][:k]); err != nil {
+				return "error:write " + err.Error()
+			}
+			rest[i] = rest[i][k:]
+			busy = true
+		}
+	}
+	for i := range ws {
+		if err := ws[i].Close(); err != nil {
+			return "error:close " + err.Error()
+		}
+	}
+	res := "ok"
+	for i := range ps {
+		got, err := refDecode(name, bufs[i].Bytes())
+		if err != nil {
+			return fmt.Sprintf("error:stream %d not readable by the reference decoder: %v", i, err)
+		}
+		res += " " + sum(got)
+	}
+	rds := make([]io.ReadCloser, n)
+	for i := range ps {
+		rds[i] = c.NewReader(bytes.NewReader(bufs[i].Bytes()))
+	}
+	outs := make([][]byte, n)
+	done := make([]bool, n)
+	for left := n; left > 0; {
+		for i := range rds {
+			if done[i] {
+				continue
+			}
+			b := make([]byte, 1+r.Intn(5000))
+			k, err := rds[i].Read(b)
+			outs[i] = append(outs[i], b[:k]...)
+			if err != nil {
+				done[i] = true
+				left--
+				if !errors.Is(err, io.EOF) {
+					return fmt.Sprintf("error:reader %d: %v", i, err)
+				}
+			}
+		}
+	}
+	for i := range rds {
+		rds[i].Close()
+		res += " " + sum(outs[i])
+	}
+	return res
 }
 
 func main() {
@@ -497,7 +601,19 @@ func main() {
 				emit(fmt.Sprintf("hist %s base %s", cc.name, sum(p)), "error:"+err.Error())
 				continue
 			}
-			for kind := 0; kind <= 4; kind++ {
+			for kind := 0; kind <= 6; kind++ {
+				ps := [][]byte{payload(r, 2, 40000+r.Intn(9000)), payload(r, 0, 35000+r.Intn(5000)), payload(r, 1, 70000)}
+				emit(fmt.Sprintf("ovl %s after%d %s %s %s", cc.name, kind, sum(ps[0]), sum(ps[1]), sum(ps[2])), guard(func() string {
+					last := ""
+					for i := 0; i < 3; i++ {
+						disturb(r, cc.codec, base, kind)
+						last = overlapping(r, cc.codec, cc.name, ps)
+						if !strings.HasPrefix(last, "ok") {
+							break
+						}
+					}
+					return last
+				}))
 				emit(fmt.Sprintf("hist %s after%d %s %s", cc.name, kind, sum(p), sum(base)), guard(func() string {
 					for i := 0; i < 3; i++ {
 						disturb(r, cc.codec, base, kind)
